@@ -120,9 +120,26 @@ def _init_worker():
 
 
 def _request():
+    """CodeGeneratorRequest of the carrier API with exactly the transitive imports, as protoc would pass them."""
     global _REQ
     if _REQ is None:
-        _REQ = absapi.build_request(carrier_api(), '')
+        api = carrier_api()
+        api['files'][0]['std_deps'] = ['google/api/client.proto']
+        req = absapi.build_request(api, '')
+        by = {f.name: f for f in req.proto_file}
+        keep = set()
+
+        def visit(n):
+            if n not in keep:
+                keep.add(n)
+                for d in by[n].dependency:
+                    visit(d)
+        for n in req.file_to_generate:
+            visit(n)
+        files = [f for f in req.proto_file if f.name in keep]
+        del req.proto_file[:]
+        req.proto_file.extend(files)
+        _REQ = req
     return _REQ
 
 
@@ -258,7 +275,7 @@ def _main(chk, args, pool):
 
     def lap(what):
         print(f'[C09] {what}: {time.time() - t0:.0f}s', flush=True)
-    # the model-checking runs (invariants + liveness) go on in the background while the cases are executed
+    # the model-checking runs (invariants; liveness on the small configuration) go on in the background while the cases are executed
     checks = {'small': pool.submit(tlc.run, 'Retry', 'Retry.small.cfg', deadlock=False, timeout=1500, workers=4, env=JAVA_MEM)}
     if not quick:
         checks['full'] = pool.submit(tlc.run, 'Retry', 'Retry.full.cfg', deadlock=False, timeout=1500, workers=4, env=JAVA_MEM)
@@ -379,7 +396,7 @@ def _main(chk, args, pool):
                           dict(case=c, config=table[c['cid']]['cfg'], trace=tr) if n < 200 else dict(case_id=key))
     # 5. code -> spec: batched trace validation ----------------------------------------------------------------------------
     rnd.shuffle(traces)          # balance the batches (deterministic given the seed)
-    nb = max(1, -(-len(traces) // 10000)) if len(traces) > 12000 else max(1, min(6, len(traces) // 1500))
+    nb = max(1, -(-len(traces) // 10000)) if len(traces) > 60000 else max(1, min(6, len(traces) // 1500))
     batches = [traces[i::nb] for i in range(nb)]
     with ThreadPoolExecutor(min(nb, 6)) as ex:
         try:
@@ -388,7 +405,7 @@ def _main(chk, args, pool):
             raise core.MachineryError(str(e))
     lap(f'{len(traces)} traces validated in {nb} batches')
     for k, f in checks.items():
-        chk.add_tlc(f.result(), f'Retry model check ({k}: invariants + liveness)')
+        chk.add_tlc(f.result(), f'Retry model check ({k}: invariants' + (' + liveness)' if k == 'small' else ')'))
     lap('model checking joined')
     nacc = nrej = nruns = 0
     for b, (accepted, rejected, rs) in zip(batches, vals):
